@@ -1,6 +1,10 @@
 // Harness for C02: drives the real run planner (internal/core/forks.go prepareRunPlan, distance 0) on
 // fabricated commit graphs and records the plans.  Every graph is planned twice (Go's map iteration
 // order varies between runs; the second planning also receives the commits in reversed slice order).
+// Every fabricated commit carries a committer timestamp (Graph.Times: none, equal, growing, falling, random,
+// skewed, tied): the planner must not depend on it.  Kinds wide / ffdeep: forks and octopus merges of more than
+// eight branches; fast-forward edges whose alternative path is 2..140 commits long.  Kinds scale-*: histories
+// with 10^3 .. 10^6 branches / commits (planlib.ScaleGraph), planned once and judged by the fast validator.
 package main
 
 import (
@@ -62,6 +66,7 @@ func sweep(c *Config, kind string, n int, keep func(parents [][]int) bool, takeO
 							continue
 						}
 						g := pl.FromParents(parents, ranks)
+						g.Times = pl.SweepTimes(n, m, k)
 						obs := plansOf(g)
 						if !dedup {
 							lines = append(lines, caseFields(kind, g, obs))
@@ -102,12 +107,96 @@ func sweep(c *Config, kind string, n int, keep func(parents [][]int) bool, takeO
 	}
 }
 
+// scaleSpec describes one large case; it is re-generated from these numbers on replay.
+type scaleSpec struct {
+	shape              string
+	size, hmode, tmode int
+	gseed              int64
+}
+
+func scaleLine(sp scaleSpec) []Sx {
+	g := pl.ScaleGraph(sp.shape, sp.size, sp.hmode, sp.tmode, sp.gseed)
+	obs := pl.Guard("plans", func() Sx {
+		cs, id := g.Commits(false)
+		return T("plans", pl.PlanSx("plan", verifapi.PrepareRunPlan(cs, 0), id))
+	})
+	fs := []Sx{T("kind", A("scale-"+sp.shape)), T("nt", B(true))}
+	fs = append(fs, pl.ScaleFields(sp.shape, sp.size, sp.hmode, sp.tmode, sp.gseed, g)...)
+	return append(fs, T("obs", obs))
+}
+
+// runScale plans the large cases on several workers (each needs up to a few hundred MB) and writes them in order.
+func runScale(c *Config, specs []scaleSpec, workers int) func() {
+	out := make([][]Sx, len(specs))
+	var wg sync.WaitGroup
+	next := make(chan int, len(specs))
+	for i := range specs {
+		next <- i
+	}
+	close(next)
+	for w := 0; w < workers; w++ {
+		wg.Add(1)
+		go func() {
+			defer wg.Done()
+			for i := range next {
+				out[i] = scaleLine(specs[i])
+			}
+		}()
+	}
+	return func() {
+		wg.Wait()
+		for i, fs := range out {
+			c.Emit(fs...)
+			out[i] = nil
+		}
+	}
+}
+
+// scaleSpecs: sizes 10^3 and 10^4 in every shape, and the branch-index boundary 2^16 (c-1, c, c+1 and above) in
+// the quick tier; 10^5 in every shape and 10^6 in the cheap ones in the thorough tier.
+func scaleSpecs(c *Config) []scaleSpec {
+	r := c.Rng
+	var specs []scaleSpec
+	mk := func(shape string, size int) {
+		specs = append(specs, scaleSpec{shape, size, r.Intn(3), r.Intn(pl.NumTimeModes), int64(r.Intn(1 << 30))})
+	}
+	for _, sh := range pl.ScaleShapes {
+		mk(sh, 1000+r.Intn(25))
+	}
+	for _, sh := range []string{"comb", "diamonds", "roots", "ladder", "ffchain", "starmerge"} {
+		mk(sh, 10000+r.Intn(300))
+	}
+	mk("bush", 3000+r.Intn(100))
+	// the 16-bit boundary of a branch index, and the 8-bit / 15-bit ones
+	for _, n := range []int{255, 256, 257, 32767, 32768, 32769, 65535, 65536, 65537} {
+		mk("star", n)
+	}
+	mk("comb", 65536+1+r.Intn(3000))
+	if c.Thorough() {
+		mk("diamonds", 65536+1+r.Intn(3000))
+		mk("roots", 65536+1+r.Intn(3000))
+		mk("starmerge", 65536+1+r.Intn(3000))
+		for _, sh := range []string{"comb", "diamonds", "roots", "ladder", "ffchain", "star", "starmerge"} {
+			mk(sh, 100000+r.Intn(3000))
+		}
+		mk("bush", 20000+r.Intn(1000))
+		mk("spine", 1000000)
+		mk("star", 1000000)
+		mk("comb", 1<<19+r.Intn(1000))
+	}
+	return specs
+}
+
 func main() {
 	full := flag.Bool("full", false, "thorough tier: all 720 hash orders of every 6-commit DAG (19.2 M plans) instead of every sixth")
 	c := Setup()
 	defer c.Close()
 	if c.Replay != "" {
 		for _, cs := range c.ReplayCases() {
+			if shape, size, hmode, tmode, gseed, ok := pl.ParseScale(cs); ok {
+				c.Emit(scaleLine(scaleSpec{shape, size, hmode, tmode, gseed})...)
+				continue
+			}
 			g := pl.ParseGraph(cs)
 			c.Emit(caseFields("replay", g, plansOf(g))...)
 		}
@@ -116,6 +205,11 @@ func main() {
 	workers := 6
 	if c.Thorough() {
 		workers = 10
+	}
+	// the large cases are planned in the background while the small ones are generated, and written last
+	emitScale := func() {}
+	if c.Tier != "search" {
+		emitScale = runScale(c, scaleSpecs(c), 3)
 	}
 	all := func(int) bool { return true }
 	conn := func(p [][]int) bool { return pl.Connected(p) }
@@ -138,20 +232,45 @@ func main() {
 		}
 		sweep(c, "ex6", 6, conn, take, true, workers)
 	}
+	times := func(g pl.Graph) pl.Graph {
+		g.Times = pl.TimesFor(c.Rng.Intn(pl.NumTimeModes), g.N, c.Rng)
+		return g
+	}
 	// samples of 6- and 7-commit DAGs with random hash orders
 	for i := c.Count(4000, 40000); i > 0; i-- {
 		n := 6 + c.Rng.Intn(2)
 		parents := pl.DagFromMask(n, c.Rng.Intn(pl.NumMasks(n)))
-		g := pl.FromParents(parents, c.Rng.Perm(n))
+		g := times(pl.FromParents(parents, c.Rng.Perm(n)))
 		c.Emit(caseFields(fmt.Sprintf("smp%d", n), g, plansOf(g))...)
 	}
 	// random histories up to 14 commits
 	for i := c.Count(20000, 300000); i > 0; i-- {
-		g := pl.RandomGraph(c.Rng, 14)
+		g := times(pl.RandomGraph(c.Rng, 14))
 		c.Emit(caseFields("rnd", g, plansOf(g))...)
 	}
 	for i := c.Count(400, 8000); i > 0; i-- {
-		g := pl.RandomGraph(c.Rng, 40)
+		g := times(pl.RandomGraph(c.Rng, 40))
 		c.Emit(caseFields("rndbig", g, plansOf(g))...)
 	}
+	// forks of more than eight branches and octopus merges of more than eight parents
+	for i := c.Count(160, 6000); i > 0; i-- {
+		ps := pl.WideGraph(c.Rng, 18)
+		g := times(pl.FromParents(ps, c.Rng.Perm(len(ps))))
+		g.Order = c.Rng.Perm(g.N)
+		c.Emit(caseFields("wide", g, plansOf(g))...)
+	}
+	// fast-forward (redundant) edges whose alternative path is long: 2 .. 140 commits, with branch points in between
+	for i := c.Count(120, 3000); i > 0; i-- {
+		ps := pl.ScaleParents("ffchain", 6+c.Rng.Intn(40), c.Rng)
+		g := times(pl.FromParents(ps, c.Rng.Perm(len(ps))))
+		c.Emit(caseFields("ffdeep", g, plansOf(g))...)
+	}
+	if c.Thorough() { // alternative paths of up to 140 commits: seconds per case in plan_ok
+		for i := c.Count(1, 60); i > 0; i-- {
+			ps := pl.ScaleParents("ffchain", 60+c.Rng.Intn(80), c.Rng)
+			g := times(pl.FromParents(ps, c.Rng.Perm(len(ps))))
+			c.Emit(caseFields("ffdeep", g, plansOf(g))...)
+		}
+	}
+	emitScale()
 }
